@@ -1,5 +1,6 @@
 """C16 - the JSON intermediate form is a faithful, reloadable representation."""
 
+import itertools
 import json
 
 from xmc import grid
@@ -25,7 +26,7 @@ BOUND = {
     "thorough": "same with L(5,3) and grid subsets <=3 (core)",
 }
 # as-built additions to the bound (kept next to BOUND so that the evidence reports them)
-BOUND = {k: v + "; plus: " + 'legacy question types with overridden defaults, OSM with choice lists, 25 field-like extra choice column names (alone, filtered, pairs), add_none_option (open finding)' for k, v in BOUND.items()}
+BOUND = {k: v + "; plus: " + 'group/repeat/loop nesting chains (depth <=2, thorough <=3) x 6 leaf kinds whose output depends on the ancestors; legacy question types with overridden defaults, OSM with choice lists, 25 field-like extra choice column names (alone, filtered, pairs), add_none_option (open finding)' for k, v in BOUND.items()}
 
 EXTRA = [
     {"survey": [{"type": "begin group", "name": "g", "label": "G", "relevant": "${q} = 1", "read_only": "yes", "appearance": "field-list"},
@@ -88,6 +89,30 @@ def gen_legacy(tier):
                                                                    "choices": [dict(c, **{a: f"a{i}", b: f"b{i}"}) for i, c in enumerate(CH2)]}}
 
 
+NEST_LEAVES = {
+    "dyn-default": [{"type": "date", "name": "q", "label": "Q", "default": "today()"}, {"type": "integer", "name": "q2", "label": "Q2", "default": "1 + 1"}],
+    "static-default": [{"type": "text", "name": "q", "label": "Q", "default": "abc"}],
+    "trigger": [{"type": "text", "name": "q", "label": "Q"}, {"type": "calculate", "name": "k", "calculation": "now()", "trigger": "${q}"}],
+    "logic": [{"type": "text", "name": "q", "label": "Q ${t0}", "relevant": "${t0} != ''", "constraint": ". != ${t0}", "constraint_message": "M ${t0}"}],
+    "select": [{"type": "select_one c", "name": "q", "label": "Q", "choice_filter": "name != ${t0}", "parameters": "randomize=true"}, {"type": "select_multiple c or_other", "name": "q2", "label": "Q2"}],
+    "ref-default": [{"type": "text", "name": "q", "label": "Q", "default": "${t0}"}],
+}
+
+
+def gen_nest(tier):
+    """group / repeat / loop containers nested up to depth 2 (3 when thorough) around leaves whose output depends on the kind of their ancestors"""
+    kinds = ("group", "repeat", "loop")
+    depth = 2 if tier == "quick" else 3
+    for d in range(1, depth + 1):
+        for chain in itertools.product(kinds, repeat=d):
+            for leaf, qs in NEST_LEAVES.items():
+                rows = [dict(q) for q in qs]
+                for i, k in enumerate(reversed(chain)):
+                    ty = "begin loop over c" if k == "loop" else f"begin {k}"
+                    rows = [{"type": ty, "name": f"w{d - i}", "label": f"W{d - i}"}, *rows, {"type": f"end {k}"}]
+                yield {"g": "form", "name": f"nest:{'>'.join(chain)}:{leaf}", "wb": {"survey": [{"type": "text", "name": "t0", "label": "T0"}, *rows], "choices": CH2}}
+
+
 def gen_forms(tier):
     for name, wb in [(f"extra:{i}", w) for i, w in enumerate(EXTRA)] + [(f"rich:{i}", w) for i, w in enumerate(C13.RICH)] + C12.base_forms(tier):
         yield {"g": "form", "name": name, "wb": wb}
@@ -102,7 +127,7 @@ def gen_grid(tier):
             yield {"g": "grid", "cells": [list(c) for c in combo], "dl": dl}
 
 
-SPACE = GenSpace({"legacy": gen_legacy, "forms": gen_forms, "grid": gen_grid}, chunk=200)
+SPACE = GenSpace({"nest": gen_nest, "legacy": gen_legacy, "forms": gen_forms, "grid": gen_grid}, chunk=200)
 blocks = SPACE.blocks
 expand = SPACE.expand
 
